@@ -310,6 +310,13 @@ def scenario(desc, nm):
                                                                 signature=sig1,
                                                                 boundary_width={d0: {"left": (1, 0), "right": (0, 1), "outer": (1, 1), "inner": (0, 0)}[p1]},
                                                                 boundary="periodic"), inv)))
+        # the axis of a one-axis ufunc named by a bare string instead of a one-element tuple (inside the list, or as the whole
+        # argument): whether that spelling is taken or refused, it is the same for every name
+        bw1 = {d0: {"left": (1, 0), "right": (0, 1), "outer": (1, 1), "inner": (0, 0)}[p1]}
+        out.append(("one-axis:axis-as-strings", rec(lambda: apply_as_grid_ufunc(lambda x: x[..., 1:] + x[..., :-1], da, axis=[nm[a1]], grid=g,
+                                                                                signature=sig1, boundary_width=bw1, boundary="periodic"), inv)))
+        out.append(("one-axis:axis-as-string", rec(lambda: g.apply_as_grid_ufunc(lambda x: x[..., 1:] + x[..., :-1], da, axis=nm[a1],
+                                                                                 signature=sig1, boundary_width=bw1, boundary="periodic"), inv)))
         if p1 in ("left", "right"):
             # the same one-axis ufunc on lazy data chunked along the core dimension, mapped over the chunks
             lazy = da.chunk({nm[f"dim:{a1}:center"]: 1})
